@@ -237,6 +237,32 @@ func (a *archetype) FreeTable(table *table) {
 	}
 }
 
+// RemoveTableFromIndex removes a freed table from the relation and target lookups of the archetype.
+//
+// Required when a table is freed while its relation targets are still alive,
+// i.e. when [archetype.FreeTable] is not followed by [archetype.RemoveTarget].
+func (a *archetype) RemoveTableFromIndex(table *table) {
+	for i := range table.columns {
+		column := &table.columns[i]
+		if !column.isRelation {
+			continue
+		}
+		target := column.target.id
+		if tables, ok := a.relationTables[i][target]; ok {
+			_ = tables.Remove(table.id)
+			if len(tables.tables) == 0 {
+				delete(a.relationTables[i], target)
+			}
+		}
+		if tables, ok := a.targetTables[target]; ok {
+			_ = tables.Remove(table.id)
+			if len(tables.tables) == 0 {
+				delete(a.targetTables, target)
+			}
+		}
+	}
+}
+
 // FreeAllTables frees all tables of the archetype.
 //
 // Does not clear the tables' contents.
